@@ -519,6 +519,48 @@ fn gemv_cases(rng: &mut Rng, thorough: bool) -> Vec<Case> {
     v
 }
 
+/// `gerr m= ka= kb= n= za=<-|len> zb=<-|len> out=<len>`: argument checks of `gemm` (first kernel).
+fn gerr_cases(out: &mut Out, kernels: &[(String, GemmExecutor<u8, i8, i32>)]) {
+    let g = &kernels[0].1;
+    for &(m, ka, kb, n) in &[(2usize, 3usize, 3usize, 4usize), (2, 3, 4, 4), (1, 5, 5, 3), (1, 5, 4, 3), (3, 0, 0, 2), (0, 2, 2, 0)] {
+        for za in [None, Some(m), Some(m + 1), Some(0)] {
+            for zb in [None, Some(n), Some(n + 1)] {
+                for outl in [m * n, m * n + 1, (m * n).saturating_sub(1)] {
+                    let req = format!(
+                        "gerr m={m} ka={ka} kb={kb} n={n} za={} zb={} out={outl}",
+                        za.map(|v| v.to_string()).unwrap_or("-".into()),
+                        zb.map(|v| v.to_string()).unwrap_or("-".into())
+                    );
+                    let res = hcommon::catch(|| {
+                        let a = vec![1u8; m * ka];
+                        let b = vec![1i8; kb * n];
+                        let zav = za.map(|l| vec![1u8; l]);
+                        let zbv = zb.map(|l| vec![1i8; l]);
+                        let mut o = vec![0i32; outl];
+                        let opts = GemmOptions {
+                            alpha: 1.0,
+                            beta: 0,
+                            bias: None,
+                            a_quant: zav.as_ref().map(|z| QuantParams { zero_point: z.as_slice() }),
+                            b_quant: zbv.as_ref().map(|z| QuantParams { zero_point: z.as_slice() }),
+                        };
+                        let av = NdTensorView::from_data([m, ka], a.as_slice());
+                        let bv = NdTensorView::from_data([kb, n], b.as_slice());
+                        match g.gemm(&mut o, GemmInputA::Unpacked(av), GemmInputB::Unpacked(bv), opts) {
+                            Ok(()) => "ok".to_string(),
+                            Err(e) => format!("err:{e:?}"),
+                        }
+                    });
+                    let ans = res.unwrap_or_else(|_| "panic".into());
+                    let fail = if ans == "panic" { Some("gemm panicked instead of returning an error") } else { None };
+                    out.bucket(&format!("gerr_{}", ans.replace(':', "_")));
+                    out.case(&req, &ans, fail, true);
+                }
+            }
+        }
+    }
+}
+
 /// Exhaustive pair sweep for the saturating pairwise sum: K = 2, one output,
 /// every u8 `a` against selected `b`, and every i8 `b` against selected `a`.
 fn pair_cases(thorough: bool) -> Vec<Case> {
@@ -1286,6 +1328,7 @@ fn run(args: &Args) {
     for c in gemv_cases(&mut rng, args.thorough) {
         one(&mut out, &kernels, &c);
     }
+    gerr_cases(&mut out, &kernels);
     operator_cases(&mut out, &mut rng, args.thorough);
     let n = if args.thorough { 20_000 } else { 2_500 };
     for _ in 0..n {
